@@ -211,3 +211,24 @@ macro_rules! sum_trees {
 }
 sum_trees!(sum2_32, sum3_32, sum4_32, f32, leq32);
 sum_trees!(sum2_64, sum3_64, sum4_64, f64, leq64);
+
+// ---- products of lanes in any association order ----
+macro_rules! prod_trees {
+    ($p2:ident, $p3:ident, $p4:ident, $t:ty, $leq:ident) => {
+        #[inline(always)]
+        pub fn $p2(r: $t, a: $t, b: $t) -> bool { $leq(r, a * b) }
+        #[inline(always)]
+        pub fn $p3(r: $t, a: $t, b: $t, c: $t) -> bool {
+            $leq(r, (a * b) * c) || $leq(r, a * (b * c)) || $leq(r, (a * c) * b)
+        }
+        #[inline(always)]
+        pub fn $p4(r: $t, a: $t, b: $t, c: $t, d: $t) -> bool {
+            $leq(r, ((a * b) * c) * d) || $leq(r, ((a * b) * d) * c) || $leq(r, ((a * c) * b) * d) || $leq(r, ((a * c) * d) * b)
+                || $leq(r, ((a * d) * b) * c) || $leq(r, ((a * d) * c) * b) || $leq(r, ((b * c) * a) * d) || $leq(r, ((b * c) * d) * a)
+                || $leq(r, ((b * d) * a) * c) || $leq(r, ((b * d) * c) * a) || $leq(r, ((c * d) * a) * b) || $leq(r, ((c * d) * b) * a)
+                || $leq(r, (a * b) * (c * d)) || $leq(r, (a * c) * (b * d)) || $leq(r, (a * d) * (b * c))
+        }
+    };
+}
+prod_trees!(prod2_32, prod3_32, prod4_32, f32, leq32);
+prod_trees!(prod2_64, prod3_64, prod4_64, f64, leq64);
